@@ -329,6 +329,8 @@ def main(argv: list[str] | None = None) -> int:
         if v["signature"] in seen_sigs:
             continue
         seen_sigs.add(v["signature"])
+        if len(seen_sigs) > 15:
+            continue  # counted below; the first 15 distinct signatures get a replay file and a line each
         path = write_replay(prop, v, seed, tier)
         replay_paths.append(path)
         print(f"violation: signature={v['signature']} what={' '.join(str(v['what']).split())[:600]}")
